@@ -6285,6 +6285,12 @@ class CodegenCtx:
             return self._generate_condition_point_body(state)
         result = Outputter()
 
+        # A finished program stays finished: where only error paths leave an accepting state the transition into it
+        # already answers DONE (see immediate_done); when that answer was postponed (strict done tokens) it is still DONE.
+        if state in self.dfa.accepting_states and all(x.error_handling for x in state.transitions):
+            result.add(f"return {self.program_name.upper()}_DONE;")
+            return result.value()
+
         # Split transitions into else groups
         try:
             actual_else_transition = next(state.all_transitions_for((DFTransition.Else,)))
